@@ -81,7 +81,7 @@ CLAIMED = {
    technique="Lean 4 proof (prefix theorem over the frame model, instrumented read counter) + fault enumeration at every byte offset as correspondence",
    design="5/C15"),
  'C16': dict(
-   text="Lean transition system of the connection lifecycle (connect/status/disconnect atomic under the lock, networking threads with prologue hand-over, unlocked read phase, exception path with the now-atomic cleanup block, epilogue; server behaviours accept/refuse/disconnect/fail; listener/handler reconnect budgets); for ALL programs, environments and schedules: at most one networking thread is in an I/O phase and I/O events of different threads are separated by the first one finishing; connect/status on an active connection returns InvalidState and changes nothing; after any end the object is reusable (also from listeners/handlers); disconnect is total, idempotent and leaves the active thread interrupted; an interrupted thread dies within a bounded number of its own steps and can always be driven to death (fairness part _partial). Correspondence: sequential call histories on real threads under the scheduler vs `life.run`; two user threads under random schedules judged by the oracle.",
+   text="Lean transition system of the connection lifecycle (connect/status/disconnect atomic under the lock, networking threads with prologue hand-over, unlocked read phase, exception path with the now-atomic cleanup block, epilogue; server behaviours accept/refuse/disconnect/fail; listener/handler reconnect budgets); for ALL programs, environments and schedules: at most one networking thread is in an I/O phase and I/O events of different threads are separated by the first one finishing; connect/status on an active connection returns InvalidState and changes nothing; after any end the object is reusable (also from listeners/handlers); disconnect is total, idempotent and leaves the active thread interrupted; an interrupted thread dies within a bounded number of its own steps and can always be driven to death (fairness part _partial). Correspondence: sequential call histories on real threads under the scheduler vs `life.run`; two user threads under random schedules judged by the oracle. Liveness (Props/C16Live): on every weakly fair infinite schedule every networking thread occupying a slot after a disconnect() call is eventually dead and stays dead, and from a closing state the system reaches a state that never changes (fairness shown necessary and satisfiable).",
    note="Concurrent tie is oracle-only (no event-log equality for C16). select() on a closed file raising ValueError in an idle thread after a user disconnect is real behaviour outside the property (thread still terminates). Known finding: an interrupted thread's pending reaction to the old connection's server-disconnect can close a connection started meanwhile.",
    technique="Lean 4 proof (inductive invariant over all schedules) + correspondence on scheduled real threads",
    design="5/C16"),
